@@ -108,13 +108,13 @@ def logical_not(ev, a, k):
     m = a[0]
     out = ArrV(m.batch, m.shape, fill=True)
     for key in itertools.product(*[range(d) for d in m.shape]):
-        out.cells[key] = not m.get(key)
+        out.cells[key] = not (m.get(key) is True or m.get(key) is sp.true)
     return out
 
 
 def argwhere(ev, a, k):
     m = a[0]
-    return Tup([Tup([sp.Integer(i) for i in key]) for key in itertools.product(*[range(d) for d in m.shape]) if m.get(key) is True], "list")
+    return Tup([Tup([sp.Integer(i) for i in key]) for key in itertools.product(*[range(d) for d in m.shape]) if m.get(key) is True or m.get(key) is sp.true], "list")
 
 
 class DiagView:
